@@ -735,9 +735,10 @@ impl<T> ValVec32<T> {
     /// ```
     #[inline]
     pub fn as_slice(&self) -> &[T] {
-        if self.len == 0 || mem::size_of::<T>() == 0 {
+        if self.len == 0 {
             return &[];
         }
+        // (zero-sized T: the dangling, aligned pointer is valid for any number of elements)
         // SAFETY: We have len valid elements starting from ptr
         unsafe { slice::from_raw_parts(self.ptr.as_ptr(), self.len as usize) }
     }
@@ -745,7 +746,7 @@ impl<T> ValVec32<T> {
     /// Returns a mutable slice containing all elements
     #[inline]
     pub fn as_mut_slice(&mut self) -> &mut [T] {
-        if self.len == 0 || mem::size_of::<T>() == 0 {
+        if self.len == 0 {
             return &mut [];
         }
         // SAFETY: We have len valid elements starting from ptr
@@ -1047,6 +1048,11 @@ impl<T: Clone> Clone for ValVec32<T> {
             .or_else(|_| Self::with_capacity(self.len / 2))
             .or_else(|_| Self::with_capacity(1.max(self.len / 4)))
             .unwrap_or_else(|_| Self::new());
+
+        // zero-sized T: with_capacity() allocates nothing and reports capacity 0; any length fits
+        if mem::size_of::<T>() == 0 {
+            new_vec.capacity = MAX_CAPACITY;
+        }
 
         // Use bulk copy for better performance
         if self.len > 0 && new_vec.capacity >= self.len {
